@@ -527,6 +527,90 @@ def o5_sunfrac(rep):
         rep.error("reach", f"only {n} feasible branches of calculateSunVizFraction")
 
 
+def replay_sunfrac_edge(d):
+    """Real calculateSunVizFraction at the edge of the umbra: geometry built from the apparent radii (a, b) with c = b - a."""
+    import numpy as np
+
+    from resonaate.physics import sensor_utils as su
+    from resonaate.physics.bodies import Earth
+    from resonaate.physics.bodies.third_body import Sun
+
+    # satellite on the -x axis at distance r from the Earth's centre, Sun in the x-y plane: choose r and the Sun direction so that c = b - a
+    r = float(d.get("r", 20000.0))
+    sun_dist = 1.495978707e8
+    best = None
+    b = np.arcsin(Earth.radius / r)
+    lo, hi = 0.0, 1.0
+    for it in range(201):  # bisection on the Sun's angular offset from the anti-satellite direction; the last evaluation is on the partial side
+        th = 0.5 * (lo + hi) if it < 200 else hi
+        sat = np.array([-r, 0.0, 0.0])
+        sun = sun_dist * np.array([np.cos(th), np.sin(th), 0.0])
+        ss = sun - sat
+        a = np.arcsin(Sun.radius / np.linalg.norm(ss))
+        c = np.arccos(np.dot(-sat, ss) / (np.linalg.norm(sat) * np.linalg.norm(ss)))
+        if c < b - a:
+            lo = th
+        else:
+            hi = th
+        best = (sat, sun, a, b, c)
+    sat, sun, a, b, c = best
+    val = float(su.calculateSunVizFraction(sat, sun))
+    # just outside the umbra the visible fraction must be (numerically) zero: continuity of the shadow function
+    return abs(val) > 1e-3, {"fraction_at_umbra_edge": val, "a": float(a), "b": float(b), "c": float(c), "b_minus_a": float(b - a)}
+
+
+def o5b_sunfrac_edge(rep):
+    """Continuity of the shadow function at the edge of the umbra: with apparent radii a (Sun) <= b (Earth) and separation c = b - a
+    the partial-occultation branch returns 0 (and 1 - a^2/b^2-type slips in the normalisation are excluded)."""
+    from resonaate.physics import sensor_utils as su
+
+    def run():
+        sat, sun = reals("sat", 3), reals("sun", 3)
+        angs = []
+
+        def asin_provider(u):
+            x = real(f"ang{len(angs)}")
+            assume(x.t > 0, x.t < rv(PI_F / 2))
+            angs.append(x)
+            return x
+
+        state = {"n": 0}
+        real_arccos = su.arccos
+
+        def acos_provider(u):
+            state["n"] += 1
+            if state["n"] == 1:
+                x = real("sep")
+                assume(x.t >= 0, x.t <= rv(PI_F))
+                angs.append(x)
+                return x
+            return real_arccos(u)
+
+        with shadow(su, arcsin=asin_provider, arccos=acos_provider):
+            out = su.calculateSunVizFraction(sat, sun)
+        return out, angs
+
+    results = explore(run, max_paths=64, branch_timeout_ms=10000)
+    n = 0
+    for r in results:
+        if r.exc is not None:
+            rep.error("exception", repr(r.exc))
+            continue
+        out, angs = r.out
+        if not isinstance(out, SReal) or z3.is_rational_value(z3.simplify(out.t)):
+            continue  # constant branches are O5's subject
+        a, b, c = angs[0].t, angs[1].t, angs[2].t
+        n += 1
+        cons = r.constraints + [b >= a, c == b - a]
+        m = rep.reachable("umbra-edge-reachable", cons, timeout_ms=30000)
+        if m is None:
+            continue
+        rep.prove("umbra-edge-zero", out.t == 0, cons, timeout_ms=60000, inputs=lambda mm: {"r": 20000.0}, replay=replay_sunfrac_edge,
+                  sample="partial-occultation formula at c = b - a (Sun's disk just fully covered) returns 0: the shadow function is continuous at the umbra edge")
+    if n != 1:
+        rep.error("reach", f"expected exactly one non-constant branch, got {n}")
+
+
 class _DiffCut:
     """dot/norm wrappers that express results over the Gram entries of (sat, sun) also for the difference vector."""
 
@@ -627,7 +711,7 @@ def o6_limb(rep):
         rep.error("reach", "no path")
 
 
-REPLAYS = {"O1": replay_los, "O2": replay_conic, "O3": replay_rect, "O3b": replay_azel, "O4": replay_mask, "O6": replay_limb}
+REPLAYS = {"O5b": replay_sunfrac_edge, "O1": replay_los, "O2": replay_conic, "O3": replay_rect, "O3b": replay_azel, "O4": replay_mask, "O6": replay_limb}
 
 
 def obligations(tier):
@@ -637,6 +721,7 @@ def obligations(tier):
         Ob("O3", o3_rect, "rectangular FoV reflexive and invariant under common azimuth rotation incl. the seam", 180),
         Ob("O3b", o3b_azel, "getAzimuth/getElevation ranges and direction", 180),
         Ob("O4", o4_masks, "az/el/range masks incl. wrapping", 120),
+        Ob("O5b", o5b_sunfrac_edge, "Sun fraction continuous at the umbra edge", 300),
         Ob("O5", o5_sunfrac, "Sun fraction branch structure", 180),
         Ob("O6", o6_limb, "Earth limb == tangent cone", 120),
     ]
